@@ -19,7 +19,7 @@ from vk.run import Harness
 from kawin.precipitation.parameters.ElasticFactors import (
     convert2To4rankTensor, convert4To2rankTensor, convertVecTo2rankTensor, convert2rankToVec, invert4rankTensor,
     rotateRank2Tensor, rotateRank4Tensor, elasticConstantToC, moduliToC, StrainEnergy, StrainEnergyParameters,
-    SphericalEnergyDescription, EllipsoidalEnergyDescription, ConstantEnergyDescription)
+    SphericalEnergyDescription, EllipsoidalEnergyDescription, ConstantEnergyDescription, CuboidalEnergyDescription)
 
 
 def _f_fill_diagonal(a, val, wrap=False):
@@ -460,6 +460,87 @@ def setter_order(ctx, target="matrix", shape="default"):
         ctx.prove("matrix tensor untouched by the precipitate rotation", ctx.all([ctx.eq(last.params.cMatrix_4th[idx], um[idx]) for idx in IDX4]))
 
 
+# ------------------------------------------------------------------------------------------------ every order of the configuration calls
+
+def _perm_list(ops, limit=None):
+    ps = list(itertools.permutations(ops))
+    return ps if limit is None else ps[:limit]
+
+
+def config_order(ctx, shape="ellipsoid", setters="constants", ops=("S", "M", "P", "Rp"), extra=("Rm", "E")):
+    """a user may supply shape choice, matrix stiffness, precipitate stiffness, rotation(s) and eigenstrain in any order: the
+    description in use is the chosen shape and the stored (rotated) tensors and the eigenstrain are the same for every order.
+    All permutations of `ops`; the calls in `extra` are inserted at a position that varies with the permutation."""
+    a = ctx.real("ra", (-1.0, 1.0)); b = ctx.real("rb", (-1.0, 1.0)); c = ctx.real("rc", (-1.0, 1.0)); d_ = ctx.real("rd", (-1.0, 1.0))
+    zero, one = 0.0 * a, 1.0 + 0.0 * a
+    Rm = [[a, -b, zero], [b, a, zero], [zero, zero, one]]          # matrix axes: about z (entries arbitrary reals)
+    Rp = [[one, zero, zero], [zero, c, -d_], [zero, d_, c]]        # precipitate axes: about x
+    eps = ctx.reals("e", 3, (-0.05, 0.05))
+    if setters == "moduli":
+        Gm = ctx.real("Gm", (0.5, 2.0)); num = ctx.real("num", (0.05, 0.45)); Ep = ctx.real("Ep", (1.0, 3.0)); Kp = ctx.real("Kp", (1.0, 3.0))
+        ctx.assume(Gm > 0); ctx.assume(num > 0); ctx.assume(2 * num < 1); ctx.assume(Ep > 0); ctx.assume(Kp > 0); ctx.assume(Ep < 9 * Kp)
+    else:
+        c11 = ctx.real("c11", (2.0, 3.0)); c12 = ctx.real("c12", (0.5, 1.5)); c44 = ctx.real("c44", (0.5, 1.5))
+        p11 = ctx.real("p11", (2.0, 3.0)); p12 = ctx.real("p12", (0.5, 1.5)); p44 = ctx.real("p44", (0.5, 1.5))
+        ctx.assume(c11 > 0); ctx.assume(c44 > 0); ctx.assume(p11 > 0); ctx.assume(p44 > 0)
+    want = {"ellipsoid": EllipsoidalEnergyDescription, "cuboidal": CuboidalEnergyDescription, "spherical": SphericalEnergyDescription,
+            "ctor-ellipsoid": EllipsoidalEnergyDescription, "ctor-plate": EllipsoidalEnergyDescription, "ctor-cube": CuboidalEnergyDescription}[shape]
+
+    def apply(se, op, n):
+        if op == "S":
+            {"ellipsoid": se.setEllipsoidal, "cuboidal": se.setCuboidal, "spherical": se.setSpherical}[shape]()
+        elif op == "M":
+            if setters == "moduli":
+                se.setModuli(G=Gm, nu=num)
+            elif setters == "tensor" or (setters == "mixed" and n % 2 == 0):
+                se.setElasticTensor(elasticConstantToC(c11, c12, c44))
+            else:
+                se.setElasticConstants(c11, c12, c44)
+        elif op == "P":
+            if setters == "moduli":
+                se.setModuliPrecipitate(E=Ep, K=Kp)
+            elif setters == "tensor" or (setters == "mixed" and n % 3 == 0):
+                se.setElasticTensorPrecipitate(elasticConstantToC(p11, p12, p44))
+            else:
+                se.setElasticConsantsPrecipitate(p11, p12, p44)
+        elif op == "Rm":
+            se.setRotationMatrix(Rm)
+        elif op == "Rp":
+            se.setRotationPrecipitate(Rp)
+        elif op == "E":
+            se.setEigenstrain([eps[0], eps[1], eps[2]])
+
+    ctor = {"ctor-ellipsoid": "ellipsoid", "ctor-plate": "plate", "ctor-cube": "cube"}.get(shape)
+    perms = [p for p in itertools.permutations(ops) if ctor is None or p[0] == "S"]
+    objs = []
+    for n, perm in enumerate(perms):
+        seq = list(perm)
+        for q, x in enumerate(extra):
+            seq.insert((n + 2 * q) % (len(seq) + 1), x)
+        if ctor is not None:
+            seq = [x for x in seq if x != "S"]
+            se = StrainEnergy(ctor)
+        else:
+            se = StrainEnergy()
+        for x in seq:
+            apply(se, x, n)
+        objs.append((",".join(seq), se))
+    ctx.prove("orders explored", len(objs) >= 2)
+    name0, ref = objs[0]
+    ctx.observe("cM", ref.params.cMatrix_4th); ctx.observe("cP", ref.params.cPrec_4th)
+    for name, se in objs:
+        ctx.prove("every order: the description in use is the chosen shape", type(se.description) is want, note=name)
+        ctx.prove("every order: the description reads the object's own parameter record", se.description.params is se.params, note=name)
+    for name, se in objs[1:]:
+        for nm in ("cMatrix_4th", "cMatrix_2nd", "cPrec_4th", "cPrec_2nd", "eigenstrain"):
+            x, y = np.array(getattr(ref.params, nm)), np.array(getattr(se.params, nm))
+            ok = np.shape(x) == np.shape(y)
+            ctx.prove("every order: same stored %s" % nm,
+                      ctx.all([ctx.eq(x[idx], y[idx], atol=1e-12) for idx in np.ndindex(*np.shape(x))]) if ok else False, note="%s vs %s" % (name, name0))
+    # the precipitate tensor is really the precipitate's (not the matrix default) and differs from it structurally
+    ctx.prove("precipitate tensor is its own array", ref.params.cPrec_4th is not ref.params.cMatrix_4th)
+
+
 def _quat_matrix(w, x, y, z):
     """textbook rotation matrix of the quaternion (w, x, y, z), not normalised: Q Q^T = |q|^4 I; every proper rotation
     is Q(q) for a unit quaternion"""
@@ -829,6 +910,16 @@ HARNESSES = [
             assumptions=["R arbitrary real 3x3 (orthogonality not needed for this clause); cubic stiffness c11, c44 > 0"],
             params={"quick": [{"target": "matrix"}, {"target": "prec"}, {"target": "matrix", "shape": "ellipsoid"}],
                     "thorough": [{"target": "matrix"}, {"target": "prec"}, {"target": "matrix", "shape": "ellipsoid"}, {"target": "prec", "shape": "ellipsoid"}]}),
+    Harness("C16.config_order", config_order, functions=_F_SE + [_SE.setEllipsoidal, _SE.setCuboidal, _SE.setSpherical, _SE.setModuliPrecipitate, elasticConstantToC, moduliToC],
+            opts={"ob_timeout": 30.0, "name_threshold": 10 ** 6, "inv_hook": _capturing_inv}, validate=1,
+            assumptions=["shape choice is a non-constant shape (a constant energy chosen before the stiffness is replaced by the sphere by design)",
+                         "rotation matrices [[a,-b,0],[b,a,0],[0,0,1]] (matrix) and [[1,0,0],[0,c,-d],[0,d,c]] (precipitate) with arbitrary real entries; cubic or isotropic stiffness"],
+            stubs=["np.linalg.inv(6x6) in moduliToC: exact inverse of the block-diagonal compliance"],
+            bounds={"orders": "all permutations of (shape, matrix stiffness, precipitate stiffness, precipitate rotation); matrix rotation and eigenstrain inserted at varying positions; thorough: all permutations of five calls"},
+            params={"quick": [{"shape": "ellipsoid", "setters": "mixed"}, {"shape": "cuboidal", "setters": "moduli"}, {"shape": "ctor-plate", "setters": "constants"}],
+                    "thorough": [{"shape": "ellipsoid", "setters": "mixed", "ops": ["S", "M", "P", "Rp", "Rm"], "extra": ["E"]}, {"shape": "cuboidal", "setters": "moduli"},
+                                 {"shape": "spherical", "setters": "tensor"}, {"shape": "ctor-plate", "setters": "constants"}, {"shape": "ctor-cube", "setters": "mixed"},
+                                 {"shape": "ctor-ellipsoid", "setters": "moduli"}]}),
     Harness("C16.rot_iso", rot_iso, functions=_F_SE + [elasticConstantToC], opts={"ob_timeout": 40.0, "name_threshold": 10 ** 6},
             assumptions=["R = +-Q(q), the quaternion parametrisation of O(3) (orthogonal iff |q| = 1); isotropic stiffness c11 = lam + 2G, c12 = lam, c44 = G"],
             params={"quick": [{"order": "after"}, {"order": "before", "improper": True}],
